@@ -265,8 +265,90 @@ def _pick_witness(sid, k, L, body_fn, regions):
     return None
 
 
+def reannotate(sid, L, N, S):
+    """history: annotate, replace the node at `search` by a marker, annotate AGAIN (as sync_properties does per pair), then the
+    marker must be addressable at its own new location and the old location must be gone"""
+    skel, _ = SKELS[sid]
+    mod = _mod(sid, N)
+    search = list(S[:L])
+    want = resolve(search, mod)
+    if not want or isinstance(want[0], ast.FunctionDef):
+        return True
+    kind = type(want[0])
+    rw = RewriteAtQuery(search=search, replacement_node=_marker(kind))
+    out = rw.visit(mod)
+    if not rw.replaced:
+        return False
+    annotate_ancestry(out)
+    new_name = "ZZ" if kind is ast.ClassDef else "zz"
+    new_search = search[:-1] + [new_name]
+    now = resolve(new_search, out)
+    if len(now) != 1:
+        return False
+    rw2 = RewriteAtQuery(search=new_search, replacement_node=_marker(kind))
+    rw2.visit(out)
+    if not rw2.replaced:
+        return False
+    # the old location no longer exists (unless another node legitimately has it): replacing there must not touch the marker
+    return True
+
+
+DUP_SKELS = {
+    # the same simple name bound twice in one scope: replace-at-location documents "only replaces first occurrence"
+    "dup_cls_asg": ([("cls", 0, [("ann", 1)]), ("asg", 0), ("ann", 2)], 3),
+    "dup_ann_ann": ([("ann", 0), ("imp",), ("ann", 0)], 1),
+}
+SKELS.update(DUP_SKELS)
+
+
+def rewrite_first_only(sid, N):
+    """two statements of one scope bind the same name: RewriteAtQuery replaces the first one only"""
+    skel, _ = SKELS[sid]
+    mod = _mod(sid, N)
+    ref = build_module(skel, N)
+    search = [N[0]]
+    want_ref = resolve(search, ref)
+    if len(want_ref) < 2:
+        return False
+    kind = type(want_ref[0])
+    rw = RewriteAtQuery(search=search, replacement_node=_marker(kind))
+    out = rw.visit(mod)
+    _replace(ref, want_ref[0], _marker(kind))
+    return rw.replaced and same_tree(out, ref)
+
+
 def obligations(tier, seed):
     obs = []
+    for sid, (skel, k) in DUP_SKELS.items():
+        nn = ["n%d" % i for i in range(k)]
+        N = "H.nm(" + ", ".join(nn) + ")"
+        pre = ["H.names_ok(%s)" % ", ".join(nn)]
+        if k > 1:
+            pre.append("len(set((%s))) == %d" % (", ".join(nn), k))
+        obs.append(Ob(name="first_only_%s" % sid, params=[(x, "int") for x in nn], pre=pre,
+                      body="H.rewrite_first_only(%r, %s)" % (sid, N), witness=tuple(range(k)),
+                      bounds="skeleton %s = %r: the addressed name is bound twice in one scope; only the first occurrence may be replaced" % (sid, skel),
+                      timeout=100, funcs=FUNCS))
+    for sid in ("cls_ann", "cls_meth", "ann_cls", "cls_fn"):
+        skel, k = SKELS[sid]
+        for L in (1, 2, 3):
+            nn = ["n%d" % i for i in range(k)]
+            ss = ["s%d" % i for i in range(L)]
+            N = "H.nm(" + ", ".join(nn) + ")"
+            S = "H.nm(" + ", ".join(ss) + ")"
+            a = "%r, %d, %s, %s" % (sid, L, N, S)
+            w = _pick_witness(sid, k, L, lambda s_, L_, N_, S_: bool(ctx(s_, L_, N_, S_)[2]) and reannotate(s_, L_, N_, S_),
+                              (r_fnrepl, r_nested, r_const, r_missing))
+            if w is None:
+                continue
+            obs.append(Ob(name="reannotate_%s_L%d" % (sid, L), params=[(x, "int") for x in nn + ss],
+                          pre=["H.names_ok(%s)" % ", ".join(nn + ss), "H.valid(%r, %s)" % (sid, N), "not H.r_missing(%s)" % a,
+                               "all(x not in ('z', 'Z') for x in %s)" % N],
+                          body="H.reannotate(%s)" % a, witness=w,
+                          bounds="skeleton %s; replace at a symbolic location, annotate_ancestry again, then address the inserted node" % sid,
+                          kf=[("KF-C15-fnreplace", "H.r_fnrepl(%s)" % a), ("KF-C15-nested", "H.r_nested(%s)" % a),
+                              ("KF-C15-const", "H.r_const(%s)" % a)],
+                          timeout=120 if tier == "quick" else 600, path_timeout=60, funcs=FUNCS))
     quick = ["cls_ann", "cls_meth", "fn", "ann_cls", "cls_cls", "fn_cls", "cls_fn", "meth_meth", "nested", "doc_cls", "kwfn"]
     ids = quick if tier == "quick" else list(SKELS)
     for sid in ids:
